@@ -6,10 +6,11 @@
 set -u
 OUT="$(realpath -m "$1")"; MODE="${2:-plain}"
 export GOFLAGS=-mod=mod GOPROXY=off GOSUMDB=off GOTOOLCHAIN=local CGO_ENABLED=1
-VERIF=/verif
+VERIF="${VERIF_DIR:-$(cd "$(dirname "$0")" && pwd)}"
 PARENT="${VERIF_SCRATCH:-${TMPDIR:-/tmp}}"
 SCRATCH=$(mktemp -d "$PARENT/nutsim-build.XXXXXX") || exit 2
 trap 'rm -rf "$SCRATCH"' EXIT
+mkdir -p "$VERIF/bin"
 cd $VERIF/sim || exit 2
 if [ ! -x $VERIF/bin/simrewrite ] || [ cmd/simrewrite/main.go -nt $VERIF/bin/simrewrite ]; then
   go build -o $VERIF/bin/simrewrite ./cmd/simrewrite || { echo "build: simrewrite failed" >&2; exit 2; }
